@@ -13,5 +13,14 @@ CHECKS = {
    technique='SMT (z3): symbolic execution of SignHashed/TestPrivateKey from go/ssa with math/big as mathematical integers; linear-abstraction proofs with hypothesis-product lemmas, NIA counterexamples replayed as go tests',
    text='The real SignHashed (retry loop, range checks, big.Int arithmetic, left-padding) is executed symbolically for all private-key byte strings of each length in the bound, all digests and all nonce streams of up to N candidates; the group, scalar-field and comparison layers are replaced by contracts that other properties discharge. On every path the solver proves that skipped candidates are exactly those the standard rejects, that the accepted candidate and the (r,s) output satisfy the standard\'s equations, and that errors occur exactly for keys outside [1,n-2]. Each rejection rule is additionally hit by a solver-constructed stream replayed on the real build.',
    note='Trusted: contracts listed in evidence (C14/C15/C16/C20 discharge them), z3 linear arithmetic + the soundness of the monomial abstraction, go/ssa. Bounds: up to 2 (quick) / 3 (thorough) nonce candidates, key lengths listed in evidence.'),
+
+ 'C01': dict(level='model_checking',
+   technique='SMT (z3): symbolic execution of SignHashed+VerifyHashed (and Sign/Verify) from go/ssa on one path; acceptance proved by linear abstraction with product lemmas; panic paths witnessed by solver-completed inputs with true curve values',
+   text='On every explored path the real signing code is followed by the real verification code on the produced (r,s) and the derived public key, with big.Int as mathematical integers and the group layer as an abstract prime-order group; the solver proves that the verification equation holds (dlog of [s]G+[t]P equals k) and that no panic/error/reject path is feasible. Feasible failing paths are turned into concrete (d,e,k) by pinning d,k, substituting true curve values (refinement loop) and solving for e, then replayed.',
+   note='Trusted: the contracts listed in evidence (discharged by C14/C15/C16/C20), prime order of the group, z3. Bounds: key lengths and number of nonce candidates as listed in evidence.'),
+ 'C03': dict(level='model_checking',
+   technique='SMT (z3): symbolic execution of VerifyHashed from go/ssa for all 32-byte inputs, equivalence with the standard predicate over an abstract group; solved counterexample families replayed on the real build',
+   text='VerifyHashed is executed for arbitrary symbolic 32-byte pubx, puby, e, r, s (and every wrong-length combination in the bound); on each path the solver proves accept => each condition of the standard and standard-accept => accept. Counterexamples are made concrete by pinning the key to a real point, substituting true curve values (refinement loop) and solving for e, r, s; in addition ~60 solved inputs per run (valid signatures, r/s+n, r+s=n, infinity, off-curve, non-canonical, bit flips) are judged on the real build against the reference.',
+   note='Trusted: contracts for point decoding / double-scalar multiplication (C14, C15), prime order (every on-curve point is [u]G), z3. Outside: argument lengths not listed.'),
 }
 NOT_APPLICABLE = {}
